@@ -8,7 +8,7 @@ CONSTANTS
   MaxBasic = 1
   MaxUniform = 1
   Periods = {100}
-  Statuses = {2, 12}
+  Statuses = {12}
   MaxOps = 5
   MaxFaults = 1
   MaxData = 1
